@@ -71,7 +71,7 @@ pub fn strategy() -> impl Strategy<Value = Case> {
         2 => (1u32..=3).prop_map(|n| TrigSpec::Time(format!("{} seconds", n), false)),
     ];
     // (u32::MAX stands for "the window ends at index u32::MAX")
-    let roller = (prop::sample::select(vec![0u32, 1, 7, 0, 1, 7, u32::MAX]), 1u32..=6, prop::sample::select(vec!["a.{}.log", "arch/{}/a.log", "a.{}.log.gz", "arch/{}/a.{}.log"]))
+    let roller = (prop::sample::select(vec![0u32, 1, 7, 0, 1, 7, u32::MAX]), 1u32..=6, prop::sample::select(vec!["a.{}.log", "arch/{}/a.log", "a.{}.log.gz", "arch/{}/a.{}.log", crate::c05::FIXED_PATTERNS[6], crate::c05::FIXED_PATTERNS[7]]))
         .prop_map(|(base, count, p)| RollSpec::Fixed { base: if base == u32::MAX { u32::MAX - (count - 1) } else { base }, count, pattern: p.to_string() });
     let roller = prop_oneof![
         8 => roller,
@@ -738,7 +738,7 @@ pub fn replay(part: &str, case: serde_json::Value) -> Option<CaseResult> {
 pub fn meta() -> EvidenceMeta {
     EvidenceMeta {
         level: "fault_enumeration",
-        rule: "cases = generated histories (trigger: size / scripted pre-processing / scripted post-processing / time via the guarded clock; fixed window base in {0,1,7, u32::MAX-count+1}, count 1-6, plain / directory-component / .gz pattern; append or truncate mode; 5-40 appends of self-delimiting records; obstruction persisting for 1-3 rotation attempts; continuation of 3-25 appends). Each history is first run dry to learn its rotations, then EVERY (rotation, step) pair - each archive shift and the final move/compress - is enumerated twice through hook H2: as an injected error (rotate aborts exactly there) and as a crash point (directory image, restart on the image in the same mode, continuation); plus hook-free obstructions: a non-empty directory at the destination of the final move / of the first shift, and (directory patterns) a dangling symlink, a regular file or a link into procfs (rename fails with EXDEV, the copy fallback in its own way) in place of any slot directory of the window. Part global-logger (child process per case): the rolling appender is the root appender of the installed global logger, every archive slot is a non-empty directory until half-way through; every record logged through the macros must come back (20 s watchdog per record: a rotation failure that is reported through the logger itself must not dead-lock the appender), in order, none lost. evaluations counts histories, oracle_evaluations_inside_cases counts faulted executions and appends. Oracle after every append and on every crash image: failing append returns Err and never panics; every managed file parses into whole records; archives by descending index then the active file yield an in-order duplicate-free stream that is gap-free w.r.t. acknowledged records; every chunk on disk before the operation except the top-index archive is still present byte-for-byte (active chunk may have grown); after the fault is lifted every append succeeds and a size trigger performs the pending rotation. Further hook-free faults: the archive on a full device (name linked to /dev/full) and a non-empty directory at the only archive name for compressing patterns with a window of one; a roller that archives the file and only then reports a failure (rotation r of the history). non-trivial = a history with a fault at a shift step of a window >= 2, or any fault in truncate mode, or a pre-processing trigger".into(),
+        rule: "cases = generated histories (trigger: size / scripted pre-processing / scripted post-processing / time via the guarded clock; fixed window base in {0,1,7, u32::MAX-count+1}, count 1-6, plain / directory-component / .gz pattern / long directory names outside ASCII; append or truncate mode; 5-40 appends of self-delimiting records; obstruction persisting for 1-3 rotation attempts; continuation of 3-25 appends). Each history is first run dry to learn its rotations, then EVERY (rotation, step) pair - each archive shift and the final move/compress - is enumerated twice through hook H2: as an injected error (rotate aborts exactly there) and as a crash point (directory image, restart on the image in the same mode, continuation); plus hook-free obstructions: a non-empty directory at the destination of the final move / of the first shift, and (directory patterns) a dangling symlink, a regular file or a link into procfs (rename fails with EXDEV, the copy fallback in its own way) in place of any slot directory of the window. Part global-logger (child process per case): the rolling appender is the root appender of the installed global logger, every archive slot is a non-empty directory until half-way through; every record logged through the macros must come back (20 s watchdog per record: a rotation failure that is reported through the logger itself must not dead-lock the appender), in order, none lost. evaluations counts histories, oracle_evaluations_inside_cases counts faulted executions and appends. Oracle after every append and on every crash image: failing append returns Err and never panics; every managed file parses into whole records; archives by descending index then the active file yield an in-order duplicate-free stream that is gap-free w.r.t. acknowledged records; every chunk on disk before the operation except the top-index archive is still present byte-for-byte (active chunk may have grown); after the fault is lifted every append succeeds and a size trigger performs the pending rotation. Further hook-free faults: the archive on a full device (name linked to /dev/full) and a non-empty directory at the only archive name for compressing patterns with a window of one; a roller that archives the file and only then reports a failure (rotation r of the history). non-trivial = a history with a fault at a shift step of a window >= 2, or any fault in truncate mode, or a pre-processing trigger".into(),
         assumptions: vec![
             "crash = process death with an intact page cache (directory image at hook points between steps); fsync/power loss and mid-compression crashes are not modelled".into(),
             "foreground rotation only (the statement does not quantify over background rotation)".into(),
